@@ -27,3 +27,21 @@ func VerifC20Ring(d conn.DownTrack) (head, tail, size int, ok bool) {
 	}
 	return int(h.Uint()), int(tl.Uint()), pk.Len(), true
 }
+
+// VerifC20Origin reports a disk track's time origin (diagnostics for replays
+// only; no oracle depends on it).
+func VerifC20Origin(d conn.DownTrack) (origin uint32, valid_, writer bool, local int64, remote uint64) {
+	t, isT := d.(*diskTrack)
+	if !isT || t == nil {
+		return
+	}
+	t.conn.mu.Lock()
+	defer t.conn.mu.Unlock()
+	if valid(t.origin) {
+		origin, valid_ = value(t.origin), true
+	}
+	if !t.conn.originLocal.IsZero() {
+		local = t.conn.originLocal.UnixMilli()
+	}
+	return origin, valid_, t.writer != nil, local, t.conn.originRemote
+}
